@@ -71,7 +71,21 @@ pub fn ov_from_wire(j: &J) -> OV {
         J::String(s) => OV::Str(s.clone()),
         J::Array(a) => OV::Seq(a.iter().map(ov_from_wire).collect()),
         J::Object(o) => {
-            if let Some(J::String(s)) = o.get("i") {
+            if let Some(J::Array(d)) = o.get("deep") {
+                // [kind, depth, leaf]: a deeply nested value built here (the case line itself must
+                // stay within serde_json's own recursion limit)
+                let kind = d[0].as_str().unwrap();
+                let depth = d[1].as_u64().unwrap();
+                let mut v = ov_from_wire(&d[2]);
+                for i in 0..depth {
+                    if kind == "arr" || (kind == "mix" && i % 2 == 0) {
+                        v = OV::Seq(vec![v]);
+                    } else {
+                        v = OV::Map(OMap(vec![("k".to_string(), v)]));
+                    }
+                }
+                v
+            } else if let Some(J::String(s)) = o.get("i") {
                 OV::Int(s.parse().expect("u64"))
             } else if let Some(J::String(s)) = o.get("n") {
                 OV::Neg(s.parse().expect("i64"))
